@@ -104,3 +104,63 @@ package transport
 //@ func (*TarsClient).ReConnect
 //@   trusted
 //@   pure
+//
+// ------------------------------------------------------------------ what reaches the protocol's Invoke (property C05)
+// The Tars implementation of ServerProtocol slices off the 4-byte length prefix (req[4:], under contract in
+// package tars with the precondition len(req) >= 4), and a panic there ends the process (CheckPanic dumps the
+// stack and exits). Every path from the network to Invoke/InvokeTimeout therefore has to establish that the
+// package is at least 4 bytes long: over TCP the framing rule does (a delivered frame is PackageFull), over
+// UDP the handler has to check the datagram itself.
+//
+//@ func (ServerProtocol).Invoke
+//@   formals self, ctx, pkg
+//@   trusted
+//@   requires [C05] len(pkg) >= 4
+//@   allocates
+//
+//@ func (ServerProtocol).InvokeTimeout
+//@   formals self, pkg
+//@   trusted
+//@   requires [C05] len(pkg) >= 4
+//@   allocates
+//
+//@ func (*TarsServer).invoke$1
+//@   trusted
+//@   noframe
+//
+//@ func (*TarsServer).invoke
+//@   requires ts != nil && ts.config != nil && ts.protocol != nil
+//@   requires [C05] len(pkg) >= 4
+//@   noframe
+//@   allocates
+//@   site invoke$1#0 assert [C05] len(pkg) >= 4
+//@   safety [C05]
+//
+//@ func (*udpHandler).getConnContext
+//@   trusted
+//@   allocates
+//@   ensures result != nil
+//
+//@ func (*udpHandler).handleUDPAddr$1
+//@   trusted
+//@   requires [C05] len(pkg) >= 4
+//@   noframe
+//
+//@ func (*udpHandler).handleUDPAddr
+//@   requires u != nil && u.config != nil && u.server != nil && (u.config.MaxInvoke > 0 ==> u.pool != nil)
+//@   requires [C05] len(pkg) >= 4
+//@   modifies u.server.numInvoke
+//@   allocates
+//@   safety [C05]
+//
+//@ func (*udpHandler).Handle$1
+//@   trusted
+//@   noframe
+//
+//@ func (*udpHandler).Handle
+//@   requires u != nil && u.config != nil && u.server != nil && u.conn != nil && u.server.protocol != nil && (u.config.MaxInvoke > 0 ==> u.pool != nil)
+//@   noframe
+//@   allocates
+//@   loop 0 invariant u != nil && u.config != nil && u.server != nil && u.conn != nil && u.server.protocol != nil && (u.config.MaxInvoke > 0 ==> u.pool != nil) && len(buffer) == 65535
+//@   loop 0 modifies everything
+//@   safety [C05]
